@@ -4,11 +4,17 @@
    yields a panic value and never runs out of fuel (totality), and every value it returns is well
    formed: each node has exactly as many children as its operator has applied-id fields.
    The pinned commit is refuted on all three counts by kernel-checked witnesses.
-   NOT PROVED: the round-trip statement C18_roundtrip_full (needs the tokenizer-splitting lemma);
-   it is decided per run by the correspondence and by the round-trip predicate evaluated on the
-   implementation's output.  The tokenizer itself is a structural recursion on the text and cannot
-   panic except through Slot::named (C17). *)
-From SE Require Import Parse.Parser Parse.ParserFacts Parse.ArityFacts Parse.ParseMachine Lang.LangMachine.
+   Also PROVED: the ROUND TRIP, at token level and at character level: for every signature, every
+   slot table satisfying the C17 invariant and every well-formed pattern (nested substitution
+   brackets included) whose identifiers, payload texts, pattern-variable names and slot names are
+   identifier texts, parsing the printed text gives the pattern back and leaves the table unchanged
+   (C18_roundtrip_text).  The side conditions are exactly the "prints unambiguously" clause of the
+   property; module RoundTrip.Examples proves that each of them is needed.
+   NOT PROVED: the multi-pattern round trip and totality of the tokenizer beyond its structural
+   recursion (it can fail only through Slot::named, C17).  Per run: correspondence of parser/printer
+   model and implementation (generated values; truncated, spliced, mutated texts) and the
+   round-trip / arity / no-panic predicate on the implementation's own output. *)
+From SE Require Import Parse.Parser Parse.ParserFacts Parse.ArityFacts Parse.RoundTrip Parse.ParseMachine Lang.LangMachine Slots.SlotFacts.
 
 Theorem C18_parser_total : forall strict S tok,
   match parse_tokens false strict S tok with PPanic _ => False | _ => True end.
@@ -20,6 +26,21 @@ Theorem C18_parser_arity : forall strict S tok p,
 Proof. exact parse_tokens_arity. Qed.
 Print Assumptions C18_parser_arity.
 
+Theorem C18_roundtrip_tokens : forall S p, wf_pat S p -> parse_tokens false false S (tokens_of S p) = POk p.
+Proof. exact roundtrip_tokens. Qed.
+Print Assumptions C18_roundtrip_tokens.
+
+Theorem C18_roundtrip_text : forall S st, TInv st -> forall p, wf_pat S p -> wf_text S st p ->
+  parse_pattern_text false true false S st (print_pattern S st p) = POk (p, st).
+Proof. exact roundtrip_text. Qed.
+Print Assumptions C18_roundtrip_text.
+
+Theorem C18_node_syntax_roundtrip : forall S nd, node_has S nd = true -> unambiguous S nd ->
+  from_syntax false S (to_syntax S nd) = Some nd.
+Proof. exact from_to_syntax. Qed.
+Print Assumptions C18_node_syntax_roundtrip.
+
+(* earlier formulation, superseded by C18_roundtrip_text *)
 Definition C18_roundtrip_full : Prop :=
   forall S st p, arity_okb p = true ->
     (* payloads of p print unambiguously, slots of p are valid in st *)
